@@ -108,7 +108,7 @@ def run(ctx):
     rec("xml:toXmlName", "xml:toXmlName -", out, exc)
     # --- comments and pubids
     L = ctx.scale(5, 7)
-    sym = ["-", "'", '"', " ", "a", "\x0c", "&"]
+    sym = ["-", "'", '"', " ", "a", "\x0c", "&", "é", "²", "_", "م"]
     strings = [""]
     for n in range(1, L + 1):
         if n <= 4 or ctx.tier == "thorough":
